@@ -27,14 +27,37 @@ def configs(tier):
                 M = pv.denominator * mult
                 out.append(dict(k=k, p=p, pv=pv, M=M, n=k + extra, st=(k % 2 == 0)))
     # the reservoir in use while other library objects are constructed (none may disturb its draws)
-    out += [dict(c, neigh=True) for c in list(out) if c['k'] <= 2 and c['p'] in ('default', Fraction(1, 3)) and c['n'] == c['k'] + 3
+    out += [dict(c, neigh=True) for c in list(out) if c['k'] <= 2 and c['p'] in ('default', Fraction(1, 3))
             and c['M'] == min(x['M'] for x in out if x['k'] == c['k'] and x['p'] == c['p'])]
+    base = [c for c in out if c['k'] == 2 and c['p'] in ('default', Fraction(1, 3), Fraction(1)) and not c.get('neigh')
+            and c['M'] == min(x['M'] for x in out if x['k'] == 2 and x['p'] == c['p'])]
+    seen = set()
+    for c in base:
+        if (c['k'], str(c['p'])) in seen:
+            continue
+        seen.add((c['k'], str(c['p'])))
+        # checkpoint / restore before the reservoir is full: the stream continues on a deep copy / a pickle round trip
+        out.append(dict(c, fork='deepcopy'))
+        out.append(dict(c, fork='pickle'))
+        # a user subclass whose get_data hands out copies of the lists (the law is about the object's own content)
+        out.append(dict(c, sub=True))
     out.sort(key=lambda c: -(c['M'] * (1 + c['pv'] * (c['k'] - 1))) ** (c['n'] - c['k']))
     return out
 
 
+_SUB = {}
+
+
 def make(cfg):
     from ixai.storage import GeometricReservoirStorage
+    if cfg.get('sub'):
+        if 'cls' not in _SUB:
+            class SnapshotGeometric(GeometricReservoirStorage):
+                def get_data(self):
+                    xs, ys = super().get_data()
+                    return list(xs), list(ys)
+            _SUB['cls'] = SnapshotGeometric
+        GeometricReservoirStorage = _SUB['cls']
     p = cfg['p']
     if p == 'default':
         return GeometricReservoirStorage(size=cfg['k'], store_targets=cfg['st'])
@@ -174,6 +197,11 @@ def driver_for(cfg):
             if cfg.get('neigh') and t == k:
                 from checks.c08 import build_neighbours
                 keep = build_neighbours()
+            if cfg.get('fork') and t == k - 1:
+                import copy as _copy
+                import pickle as _pickle
+                keep = s
+                s = _copy.deepcopy(s) if cfg['fork'] == 'deepcopy' else _pickle.loads(_pickle.dumps(s))
             ids = tuple(x['id'] for x in list(s.get_data()[0]))
             if cfg['pv'] == 1 and t not in ids:
                 raise Violation("C09/p1-newest-not-stored",
@@ -237,7 +265,9 @@ def run_config(cfg):
                         check_ownership=False)
     viol = list(st.violations)
     desc = f"GeometricReservoirStorage(size={k}, constant_probability={cfg['p']!r})" + \
-        (" while other library objects are constructed after observation k" if cfg.get('neigh') else "")
+        (" while other library objects are constructed after observation k" if cfg.get('neigh') else "") + \
+        (f" continued on a {cfg['fork']} copy taken after k-1 observations" if cfg.get('fork') else "") + \
+        (" (user subclass whose get_data returns copies of the lists)" if cfg.get('sub') else "")
     worlds = False
     if not viol and any(w for w, _ in leaves):
         # the library re-seeded a global generator: later draws are a fixed function of the seed; the law must hold for
